@@ -65,6 +65,10 @@ def classify(m: Mutation, entry: FuncInfo) -> Optional[str]:
   return None
 
 
+NON_STATE_VALUES = {'types.MappingProxyType', 'builtins.iter', 'builtins.map', 'builtins.filter', 'builtins.zip', 'builtins.open',
+                    'builtins.enumerate', 'builtins.reversed'}
+
+
 def run(check: Check):
   repo = check.repo
   check.rule('R-PURE', 'no heap write (subscript/attribute store, delete, mutating container method, mutating '
@@ -75,6 +79,8 @@ def run(check: Check):
              'position; private donating wrappers are referenced only in fedjax/core/tree_util.py')
   check.rule('R-FROZEN', 'every state class of a built-in algorithm/aggregator is a fedjax dataclass, which is '
              'dataclasses.dataclass(frozen=True) registered as a pytree')
+  check.rule('R-STATE.plain', 'arguments of state constructors / state.replace(...) are not read-only views, iterators, generators, '
+             'lambdas or handles (they would not pickle and are not pytrees)')
   check.rule('R-NONDET', 'no global RNG / clock call in any function of fedjax/algorithms or fedjax/aggregators')
   check.rule('R-KEY.K3', 'the key stored in the next compression state is an output of a split of the previous '
              'state key and differs from every key consumed in the round')
@@ -162,6 +168,37 @@ def run(check: Check):
       check.ob('R-FROZEN', ci, f'@dataclass class {ci.name}', ok,
                'state classes must use fedjax.core.dataclasses.dataclass (frozen pytree)')
   check.floor('R-FROZEN', 'state classes', n_state, 7)
+  # -- what goes into a state survives pickling and is a pytree: no views, iterators, generators, lambdas, handles
+  state_classes = [ci for m in algo_mods + agg_mods for ci in m.classes() if ci.name.endswith('State')]
+  n_ctor = 0
+  for m in algo_mods + agg_mods:
+    for fi in m.functions():
+      ff = FuncFlow.of(repo, fi)
+      for _, c in ff.calls():
+        r = ff.callee(c)
+        is_ctor = r.kind == 'class' and r.cls in state_classes
+        is_replace = isinstance(c.func, ast.Attribute) and c.func.attr == 'replace' and not c.args and c.keywords and any(
+            ci is not None for ci in [None])
+        if not (is_ctor or (isinstance(c.func, ast.Attribute) and c.func.attr == 'replace' and not c.args and c.keywords)):
+          continue
+        if is_ctor:
+          n_ctor += 1
+        for a in list(c.args) + [k.value for k in c.keywords]:
+          bad = None
+          for v in ff.expand(a):
+            if isinstance(v, (ast.GeneratorExp, ast.Lambda)):
+              bad = type(v).__name__
+            elif isinstance(v, ast.Call):
+              p_ = ff.ext(v.func) or ''
+              if p_ in NON_STATE_VALUES or p_.startswith(('weakref.', 'threading.', 'itertools.')):
+                bad = p_
+          if bad:
+            check.ob('R-STATE.plain', fi, txt(c)[:80], False,
+                     f'a state field receives {bad}(...): such an object cannot be pickled / is not a pytree of arrays, so the state can no '
+                     'longer be checkpointed and restored', node=a)
+  check.ob('R-STATE.plain', (algo_mods[0].relpath.rsplit('/', 1)[0] + '/*', '<state constructors>'), f'{n_ctor} state constructor calls', True,
+           'state fields are plain containers / arrays', nontrivial=False)
+  check.floor('R-STATE.plain', 'state constructor calls', n_ctor, 10)
   # -- donation: nothing in algorithm/aggregator modules donates, private wrappers stay private
   da = DonationAnalysis(repo)
   n_sites = 0
